@@ -41,6 +41,7 @@ fn mutations(rng: &mut Rng, names: &[&str]) -> Vec<String> {
 }
 
 pub fn generate(s: &mut Session, tier: &str, rng: &mut Rng) {
+    bad_user_keys(s, rng);
     // ---- names
     s.begin_case("cipher-names");
     for (n, is22, eih) in README_CIPHERS {
@@ -146,6 +147,31 @@ pub fn generate(s: &mut Session, tier: &str, rng: &mut Rng) {
                 let r2 = s.run(&format!("ssu.server {} cipher={} password={} users=u:{}", b, cipher, psk, ukey));
                 if (r1 == "ok") != valid || (r2 == "ok") != valid {
                     s.oracle_fail(&format!("keys:{}:user", cipher), &format!("user key validity {} but tcp={} udp={}", valid, r1, r2));
+                }
+            }
+        }
+        s.mark_nontrivial();
+    }
+}
+
+/// the real server start-up (`startup`) with a malformed *user* key: the service must not come up (no silent
+/// single-user fallback, no silently dropped user) — its task ends with the error at once
+pub fn bad_user_keys(s: &mut Session, rng: &mut Rng) {
+    use base64ct::{Base64, Encoding};
+    for (cipher, n) in [("2022-blake3-aes-128-gcm", 16usize), ("2022-blake3-aes-256-gcm", 32)] {
+        s.begin_case(&format!("startup-user-keys:{}", cipher));
+        let psk = Base64::encode_string(&rng.bytes(n));
+        let good = Base64::encode_string(&rng.bytes(n));
+        for (what, bad) in [("one byte short", Base64::encode_string(&rng.bytes(n - 1))), ("one byte long", Base64::encode_string(&rng.bytes(n + 1))), ("not base64", "not-base64!".to_owned()), ("the other cipher's length", Base64::encode_string(&rng.bytes(48 - n)))] {
+            for users in [format!("alice:{}", bad), format!("alice:{};bob:{}", good, bad)] {
+                let w = s.fresh("w");
+                let r = s.run(&format!("e2e.start {} protocol=shadowsocks cipher={} spw={} cpw={}:{} users={} mode=tcp link=0 threads=2", w, cipher, psk, psk, good, users));
+                if r == "ok" {
+                    let alive = s.run(&format!("e2e.alive {}", w));
+                    if alive == "alive" {
+                        s.oracle_fail(&format!("startup-user-keys:{}", cipher), &format!("a user key that is {} did not stop the server's start-up: it serves with users `{}`", what, users.split(';').map(|u| u.split(':').next().unwrap_or("")).collect::<Vec<_>>().join(",")));
+                    }
+                    s.run(&format!("e2e.stop {}", w));
                 }
             }
         }
